@@ -228,7 +228,7 @@ Record Inv (g : gst) : Prop := {
   iC : NoDup (map fst (dec g));
   iD : forall tx t, aget (pending (co g)) tx = Some t -> c_phase t = 1 ->
          forall sh, In sh (c_parts t) -> exists h, aget (c_votes t) sh = Some (VYes h);
-  iE : forall tx t sh h, aget (pending (co g)) tx = Some t -> aget (c_votes t) sh = Some (VYes h) -> In (tx, sh) (cast g);
+  iE : forall tx t sh h, aget (pending (co g)) tx = Some t -> aget (c_votes t) sh = Some (VYes h) -> In sh (c_parts t) -> In (tx, sh) (cast g);
   iF : forall tx sh h, In (MVote tx sh (VYes h)) (net g) -> In (tx, sh) (cast g);
   iG : forall tx sh, In (MCommit tx sh) (net g) -> In (tx, true) (dec g);
   iH : forall tx sh, In (MAbort tx sh) (net g) -> NoCommit g tx;
@@ -371,9 +371,11 @@ Proof.
     + eauto.
 Qed.
 
-Lemma deliver_vote_Inv g tx sh v : Inv g -> msg_ok g (MVote tx sh v) -> Inv (fst (deliver g (MVote tx sh v))).
+Lemma vote_Inv g tx sh v : Inv g ->
+  (forall t h, aget (pending (co g)) tx = Some t -> In sh (c_parts t) -> v = VYes h -> In (tx, sh) (cast g)) ->
+  Inv (G (fst (c_vote (co g) tx sh v)) (ps g) (net g) (gnow g) (gh g) (dec g) (applied g) (discarded g) (cast g) (parts_of g)).
 Proof.
-  intros I Hok. cbn [deliver].
+  intros I Hok.
   pose proof (c_vote_cases (co g) tx sh v) as Hc. cbn zeta in Hc.
   destruct (c_vote (co g) tx sh v) as [c' r]. cbn [fst snd] in *.
   destruct Hc as [Hn [[-> _]|[t [ph [Gp [P0 [Gv [Ep Hph]]]]]]]].
@@ -394,7 +396,7 @@ Proof.
       exact (all_voted_yes t' AV AY sh0 Hsh).
     + (* iE *) cbn. intros tx0 t0 sh0 h. rewrite Ep, aget_aset. destruct (N.eqb_spec tx tx0) as [<-|]; [|eauto].
       intros [= <-]. cbn [c_votes t']. rewrite aget_aset. destruct (N.eqb_spec sh sh0) as [<-|]; [|eauto].
-      intros [= ->]. exact Hok.
+      intros [= ->] Hp. cbn [c_parts t'] in Hp. exact (Hok t h Gp Hp eq_refl).
     + (* iF *) exact iF0.
     + (* iG *) exact iG0.
     + (* iH *) intros tx0 sh0 H. apply NC. exact (iH0 tx0 sh0 H).
@@ -411,6 +413,23 @@ Proof.
     + (* iN *) cbn. intros tx0 parts Hp. rewrite Hn. eauto.
     + (* iM *) exact iM0.
     + (* iP *) exact iP0.
+Qed.
+
+
+Lemma deliver_vote_Inv g tx sh v : Inv g -> msg_ok g (MVote tx sh v) -> Inv (fst (deliver g (MVote tx sh v))).
+Proof.
+  intros I Hok. cbn [deliver]. pose proof (vote_Inv g tx sh v I) as H.
+  destruct (c_vote (co g) tx sh v) as [c' r]. cbn [fst] in *. apply H.
+  intros t h _ _ ->. exact Hok.
+Qed.
+
+Lemma stray_Inv g tx sh yes : Inv g -> Inv (fst (gstep g (EStray tx sh yes))).
+Proof.
+  intros I. cbn [gstep]. destruct (aget (pending (co g)) tx) as [t|] eqn:Gt; [|exact I].
+  destruct (mem sh (c_parts t)) eqn:M; [exact I|].
+  pose proof (vote_Inv g tx sh (if yes then VYes 0 else VConflict 0) I) as H.
+  destruct (c_vote (co g) tx sh (if yes then VYes 0 else VConflict 0)) as [c' r]. cbn [fst] in *. apply H.
+  intros t' h Gt' Hp _. rewrite Gt in Gt'. injection Gt' as <-. apply mem_In in Hp. congruence.
 Qed.
 
 (* ---------------------------------------------------------------- begin *)
@@ -666,6 +685,7 @@ Proof.
   - now apply timeouts_Inv.
   - now apply take_Inv.
   - cbn [gstep fst]. now apply advance_Inv.
+  - now apply stray_Inv.
 Qed.
 
 Theorem grun_Inv es : forall g, Inv g -> Inv (grun g es).
@@ -703,6 +723,8 @@ Proof.
   - cbn. eauto.
   - exists []. cbn. now rewrite app_nil_r.
   - exists []. cbn. now rewrite app_nil_r.
+  - exists []. rewrite app_nil_r. destruct (aget (pending (co g)) tx) as [t|]; [|reflexivity].
+    destruct (mem sh (c_parts t)); [reflexivity|]. destruct (c_vote _ _ _ _). reflexivity.
 Qed.
 
 Lemma grun_dec_ext es : forall g, exists l, dec (grun g es) = dec g ++ l.
